@@ -1658,6 +1658,55 @@ theorem native_refines (h : MHeap) (k : Kind) (hi : Inv h) (hp : provedOp (.nati
   | terr => cases hp
   | err => cases hp
 
+/-! ### object literals as start objects (§11.1.5) -/
+
+theorem literalDesc_wf (m : LMember) : WFDesc (literalDesc m) := by
+  obtain ⟨k, n, v⟩ := m
+  cases k
+  · trivial
+  · exact ⟨rfl, Or.inl (by decide)⟩
+  · exact ⟨rfl, Or.inr (by decide)⟩
+
+theorem literalDesc_abs (m : LMember) : absDesc (literalDesc m) = literalPD m := by
+  obtain ⟨k, n, v⟩ := m
+  cases k <;> rfl
+
+/-- the member-by-member construction of an object literal refines §11.1.5 step 5 and keeps the object well formed -/
+theorem literalFold_refines : ∀ (ms : List LMember) (o : MObj), WFObj o →
+    absObj (literalFold o ms) = Spec.literalFold (absObj o) ms ∧ WFObj (literalFold o ms) ∧
+    (literalFold o ms).proto = o.proto := by
+  intro ms
+  induction ms with
+  | nil => intro o ho; exact ⟨rfl, ho, rfl⟩
+  | cons m t ih =>
+    intro o ho
+    simp only [literalFold, Spec.literalFold]
+    have hr := defineOwnProperty_refines o m.2.1 (literalDesc m) ho (literalDesc_wf m)
+    rw [literalDesc_abs] at hr
+    rw [← hr]
+    cases hm : defineOwn o m.2.1 (literalDesc m) with
+    | none => exact ih o ho
+    | some o' =>
+      simp only [Option.map_some, Option.getD]
+      have hw' := defineOwn_wf o o' m.2.1 _ ho (WFDesc.weak (literalDesc_wf m)) hm
+      obtain ⟨i1, i2, i3⟩ := ih o' hw'
+      exact ⟨i1, i2, i3.trans (defineOwn_shape o o' m.2.1 _ hm).1⟩
+
+/-- **an object literal as a step**: outside the C04 region `object_literal_duplicate_property` the object otto
+    builds is the ES5 one -/
+theorem literal_refines (h : MHeap) (ms : List LMember) (hi : Inv h) (hd : devLiteral (.literal ms) = false) :
+    StepRefines h (.literal ms) ∧ Inv (step h (.literal ms)).1 := by
+  have hw0 : WFObj (⟨none, true, []⟩ : MObj) := fun kp hkp => by cases hkp
+  obtain ⟨h1, h2, h3⟩ := literalFold_refines ms ⟨none, true, []⟩ hw0
+  simp only [devLiteral] at hd
+  simp only [StepRefines, step, Spec.step, hd, Bool.false_eq_true, if_false]
+  have habs : absObj (⟨none, true, []⟩ : MObj) = ⟨none, true, []⟩ := rfl
+  rw [habs] at h1
+  refine ⟨by simp [absHeap, h1], inv_append h _ hi h2 ?_⟩
+  intro p hp
+  rw [h3] at hp
+  cases hp
+
 /-- **every modelled operation**: a step from a heap satisfying the invariants that is not in
     `strict_ignored` (the only region left) refines the ES5 step (same heap under abstraction, same outcome / TypeError,
     same setter calls) and re-establishes the invariants -/
@@ -1669,7 +1718,13 @@ theorem step_refines (h : MHeap) (op : Op) (hi : Inv h) (hp : provedOp op = true
     cases hc : devStrict h op with
     | false => rfl
     | true => rw [hc] at hd; simp at hd
-  rcases op with ⟨k⟩ | ⟨s, a, n, v⟩ | ⟨s, a, n⟩ | ⟨a, n, d⟩ | ⟨a, l⟩ | ⟨p, l⟩ | ⟨a⟩ | ⟨a⟩ | ⟨a⟩
+  have hl : devLiteral op = false := by
+    simp only [devStep, append_nil_iff] at hd
+    cases hc : devLiteral op with
+    | false => rfl
+    | true => rw [hc] at hd; simp at hd
+  rcases op with ⟨ms⟩ | ⟨k⟩ | ⟨s, a, n, v⟩ | ⟨s, a, n⟩ | ⟨a, n, d⟩ | ⟨a, l⟩ | ⟨p, l⟩ | ⟨a⟩ | ⟨a⟩ | ⟨a⟩
+  · exact literal_refines h ms hi hl
   · exact native_refines h k hi hp
   · exact ⟨put_refines h s a n v hi hs, put_inv h s a n v hi⟩
   · exact ⟨delete_refines h s a n hs, delete_inv h s a n hi⟩
@@ -1853,6 +1908,20 @@ theorem defineOwn_evolves (o o' : MObj) (n : Name) (d : MProp) (ho : WFObj o)
             · exact Or.inr ⟨hd1, hd2 prop hln⟩
           · exact ⟨prop, by simp [alookup_aupsert, hmn, hl], PStable.refl prop hc⟩
 
+theorem literalFold_evolves : ∀ (ms : List LMember) (o : MObj), WFObj o → Evolves o (literalFold o ms) := by
+  intro ms
+  induction ms with
+  | nil => intro o _; exact Evolves.refl o
+  | cons m t ih =>
+    intro o ho
+    simp only [literalFold]
+    cases hm : defineOwn o m.2.1 (literalDesc m) with
+    | none => exact ih o ho
+    | some o' =>
+      simp only [Option.getD]
+      have hw' := defineOwn_wf o o' m.2.1 _ ho (WFDesc.weak (literalDesc_wf m)) hm
+      exact (defineOwn_evolves o o' m.2.1 _ ho (Or.inl (literalDesc_wf m)) hm).trans (ih o' hw')
+
 /-- heaps: every existing object evolves in an allowed way (new objects may be appended) -/
 def HEvolves (h h' : MHeap) : Prop := ∀ (a : Nat) (o : MObj), h[a]? = some o → ∃ o', h'[a]? = some o' ∧ Evolves o o'
 
@@ -2022,7 +2091,16 @@ theorem sealLoop_evolves : ∀ (ns : List Name) (o : MObj), WFObj o → Evolves 
     unconditionally (also for the strict-mode operations otto treats as sloppy) -/
 theorem step_evolves (h : MHeap) (op : Op) (hi : Inv h) (hp : provedOp op = true) :
     HEvolves h (step h op).1 ∧ Inv (step h op).1 := by
-  rcases op with ⟨k⟩ | ⟨s, a, n, v⟩ | ⟨s, a, n⟩ | ⟨a, n, d⟩ | ⟨a, l⟩ | ⟨p, l⟩ | ⟨a⟩ | ⟨a⟩ | ⟨a⟩
+  rcases op with ⟨ms⟩ | ⟨k⟩ | ⟨s, a, n, v⟩ | ⟨s, a, n⟩ | ⟨a, n, d⟩ | ⟨a, l⟩ | ⟨p, l⟩ | ⟨a⟩ | ⟨a⟩ | ⟨a⟩
+  · -- an object literal is appended (also inside the C04 region: the model object is built by defineOwn steps)
+    have hw0 : WFObj (⟨none, true, []⟩ : MObj) := fun kp hkp => by cases hkp
+    obtain ⟨_, h2, h3⟩ := literalFold_refines ms ⟨none, true, []⟩ hw0
+    refine ⟨by simp only [step]; exact hevolves_append h _, ?_⟩
+    simp only [step]
+    refine inv_append h _ hi h2 ?_
+    intro p hp'
+    rw [h3] at hp'
+    cases hp'
   · -- a runtime-created start object is appended
     exact ⟨by simp only [step]; exact hevolves_append h _, (native_refines h k hi hp).2⟩
   · -- put
@@ -2497,14 +2575,16 @@ theorem preventExt_notExtensible (h : MHeap) (a : Addr) (o : MObj) (ho : h[a]? =
 theorem step_shape (h : MHeap) (op : Op) :
     (step h op).1 = h ∨ (∃ a x, (step h op).1 = h.set a x) ∨
     (∃ p l, op = .create p l ∧ (step h op).1 = h ++ [(defineList ⟨p, true, []⟩ l).1]) ∨
-    (∃ k, op = .native k ∧ (step h op).1 = h ++ [nativeObj k h.length]) := by
-  rcases op with ⟨k⟩ | ⟨s, a, n, v⟩ | ⟨s, a, n⟩ | ⟨a, n, d⟩ | ⟨a, l⟩ | ⟨p, l⟩ | ⟨a⟩ | ⟨a⟩ | ⟨a⟩ <;>
+    (∃ k, op = .native k ∧ (step h op).1 = h ++ [nativeObj k h.length]) ∨
+    (∃ ms, op = .literal ms ∧ (step h op).1 = h ++ [literalFold ⟨none, true, []⟩ ms]) := by
+  rcases op with ⟨ms⟩ | ⟨k⟩ | ⟨s, a, n, v⟩ | ⟨s, a, n⟩ | ⟨a, n, d⟩ | ⟨a, l⟩ | ⟨p, l⟩ | ⟨a⟩ | ⟨a⟩ | ⟨a⟩ <;>
     simp only [step, put, delete] <;> repeat' split
   all_goals first
     | exact Or.inl rfl
     | exact Or.inr (Or.inl ⟨_, _, rfl⟩)
     | exact Or.inr (Or.inr (Or.inl ⟨_, _, rfl, rfl⟩))
-    | exact Or.inr (Or.inr (Or.inr ⟨_, rfl, rfl⟩))
+    | exact Or.inr (Or.inr (Or.inr (Or.inl ⟨_, rfl, rfl⟩)))
+    | exact Or.inr (Or.inr (Or.inr (Or.inr ⟨_, rfl, rfl⟩)))
 
 theorem nativeObj_nodup (k : Kind) (a : Addr) : (akeys (nativeObj k a).props).Nodup := by
   cases k <;> simp [nativeObj, akeys]
@@ -2522,7 +2602,7 @@ theorem step_nodup (h : MHeap) (op : Op) (hi : Inv h) (hp : provedOp op = true) 
     cases ho''
     exact he.keys.nodup (hn a _ ho)
   · have hge : h.length ≤ a := Nat.le_of_not_lt hlt
-    rcases step_shape h op with e | ⟨b, x, e⟩ | ⟨p, l, eop, e⟩ | ⟨k, eop, e⟩
+    rcases step_shape h op with e | ⟨b, x, e⟩ | ⟨p, l, eop, e⟩ | ⟨k, eop, e⟩ | ⟨ms, eop, e⟩
     · rw [e, List.getElem?_eq_none hge] at ho'; cases ho'
     · rw [e, List.getElem?_eq_none (by simpa using hge)] at ho'; cases ho'
     · subst eop
@@ -2546,6 +2626,18 @@ theorem step_nodup (h : MHeap) (op : Op) (hi : Inv h) (hp : provedOp op = true) 
         simp at ho'
         subst ho'
         exact nativeObj_nodup k _
+      | succ j => rw [hd] at ho'; simp at ho'
+    · subst eop
+      rw [e] at ho'
+      have hw0 : WFObj (⟨none, true, []⟩ : MObj) := fun kp hkp => by cases hkp
+      have hev := literalFold_evolves ms ⟨none, true, []⟩ hw0
+      rw [List.getElem?_append_right hge] at ho'
+      cases hd : a - h.length with
+      | zero =>
+        rw [hd] at ho'
+        simp at ho'
+        subst ho'
+        exact hev.keys.nodup List.nodup_nil
       | succ j => rw [hd] at ho'; simp at ho'
 
 /-- **no key twice, ever**: every object of every heap reachable from the empty heap has pairwise
@@ -3043,5 +3135,14 @@ example : run [] hNV3 = Spec.run [] hNV3 := history_refines hNV3 (allProved_of_d
 /-- the invariant theorems need no region hypothesis at all: they also cover a history inside `strict_ignored` -/
 example : Inv (heapAfter [] wStrict) := (history_evolves wStrict [] inv_nil (allProved_of_decide _ (by decide))).2
 example : NodupHeap (heapAfter [] hNV2) := nodup_from_empty hNV2 (allProved_of_decide _ (by decide))
+
+/-- object literals as start objects: a repeated data key (`{b:1,a:2,b:3}`) is listed once, in first position, with the last value … -/
+def hLit : List Op := [.literal [(.value, 1, 4), (.value, 0, 5), (.value, 1, 6)], .del false 0 1, .literal [(.get, 0, 0), (.set, 0, 0)], .put false 1 0 5]
+example : run [] hLit = Spec.run [] hLit := history_refines hLit (allProved_of_decide _ (by decide)) (by decide)
+example : (((run [] hLit)[0]?).bind (fun s => s.objs[0]?)).map (fun o => o.names) = some [1, 0] := by decide
+/-- … and data-after-accessor is the C04 region `object_literal_duplicate_property` (ES5: SyntaxError) -/
+def wLitDup : List Op := [.literal [(.get, 0, 0), (.value, 0, 4)]]
+example : run [] wLitDup ≠ Spec.run [] wLitDup := by decide
+example : devRun [] wLitDup = ["object_literal_duplicate_property"] := by decide
 
 end OttoVerif.C07.Thm
